@@ -257,6 +257,24 @@ func TestMutatedPrograms(t *testing.T) {
 
 // TestPHP5SemanticNilCallback: PHP 5 programs that trigger the grammar's own
 // (semantic) error reports, parsed without a callback.
+// TestMutatedProgramBytes: byte-level edits (hostile fragments, raw bytes, deletions, duplications,
+// truncation) at drawn offsets of generated programs rendered with full trivia — unlike the repository
+// snippets these contain every interpolation form, heredoc flavour, cast and operator the generator
+// derives, so the edits land inside those constructs.
+func TestMutatedProgramBytes(t *testing.T) {
+	harness.Check(t, "mutated-program-bytes", 40000, 1500000, func(rt *rapid.T) {
+		v := rapid.SampledFrom(versions()).Draw(rt, "version")
+		cb := rapid.Bool().Draw(rt, "cb")
+		c := progs.Draw(rt, v, progs.Options(v), 1, 3)
+		src := c.G.Render(c.Root, progs.Policy(rt, phpgen.PolicyFull, nil)).Src
+		src = inputs.Mutate(rt, src, 3)
+		harness.Class("src=mutated-program-bytes")
+		if c, m := checkOne(src, v, cb); c != "" {
+			harness.Fail(rt, c, src, meta(v, cb), "%s", m)
+		}
+	})
+}
+
 func TestPHP5SemanticNilCallback(t *testing.T) {
 	harness.Check(t, "php5-semantic", 4000, 60000, func(rt *rapid.T) {
 		pieces := []string{
